@@ -312,21 +312,21 @@ func RunCheck(p *Property, tier string) int {
 
 	// evidence
 	cov := map[string]any{
-		"evaluations":          total.Evaluations,
-		"distinct_nontrivial":  len(total.keyset),
-		"rule":                 p.Rule,
-		"samples":              total.Samples,
-		"exhaustive":           total.Exhaustive,
-		"outcome_classes":      total.Outcomes,
-		"observed_maxima":      total.Maxima,
-		"counters":             total.Counters,
-		"violations_observed":  total.NViolations,
-		"violations_unlisted":  len(unlisted),
-		"known_findings_hit":   len(knownHit),
-		"shards":               nsh,
-		"deadline_s":           budget,
-		"notes":                total.Notes,
-		"distinct_outcomes":    len(total.Outcomes),
+		"evaluations":         total.Evaluations,
+		"distinct_nontrivial": len(total.keyset),
+		"rule":                p.Rule,
+		"samples":             total.Samples,
+		"exhaustive":          total.Exhaustive,
+		"outcome_classes":     total.Outcomes,
+		"observed_maxima":     total.Maxima,
+		"counters":            total.Counters,
+		"violations_observed": total.NViolations,
+		"violations_unlisted": len(unlisted),
+		"known_findings_hit":  len(knownHit),
+		"shards":              nsh,
+		"deadline_s":          budget,
+		"notes":               total.Notes,
+		"distinct_outcomes":   len(total.Outcomes),
 	}
 	if p.Level == "model_checking" {
 		cov["states"] = total.States
